@@ -864,6 +864,15 @@ Extra:\n{self.extra_map}
                         }
                     )
 
+                # Be sure each cosigner contributes exactly one of the keys
+                if (
+                    len({d["master_fingerprint"] for d in bip32_derivs})
+                    != output_quorum_n
+                ):
+                    raise SuspiciousTransaction(
+                        f"Output #{cnt} does not have exactly one key from each of the {output_quorum_n} cosigners"
+                    )
+
                 # BIP67 sort order
                 bip32_derivs = sorted(bip32_derivs, key=lambda k: k["pubkey"])
 
